@@ -569,6 +569,17 @@ func (m *Memberlist) resetNodes() {
 	// Move dead nodes, but respect gossip to the dead interval
 	deadIdx := moveDeadNodes(m.nodes, m.config.GossipToTheDeadTime)
 
+	// Never reap our own record. After a Leave it is in the left state and
+	// would age out like any other, but LocalNode and UpdateNode (and Leave
+	// itself) look it up and expect it to exist for as long as we run.
+	for i := deadIdx; i < len(m.nodes); i++ {
+		if m.nodes[i].Name == m.config.Name {
+			m.nodes[i], m.nodes[deadIdx] = m.nodes[deadIdx], m.nodes[i]
+			deadIdx++
+			break
+		}
+	}
+
 	// Deregister the dead nodes
 	for i := deadIdx; i < len(m.nodes); i++ {
 		delete(m.nodeMap, m.nodes[i].Name)
